@@ -14,7 +14,7 @@ import os
 from .. import pool, projgen, world
 from .. import projtable as pt
 from ..ref import model as M
-from ..stats import Stats
+from ..stats import Stats, h64
 
 ID = "C03"
 LEVEL = "model_checking"
@@ -84,6 +84,9 @@ def layouts(pat, old, new, tier, fmt):
                 yield (f"one-line:{ids}:{order}", "several-patterns-on-one-line", [f], [("a.txt", [fp.raw for fp in s])], False)
         f = projgen.build_file("a.txt", s, ("repeat", 2), "ascii", "CRLF", True)
         yield (f"repeat:{ids}", "same-pattern-on-several-lines", [f], [("a.txt", [fp.raw for fp in s])], False)
+        if len(s) == 1 and not (s[0].anchor_l or s[0].anchor_r):
+            f = projgen.build_file("a.txt", s, "twice-on-a-line", "ascii", "CRLF", False)
+            yield (f"twice:{ids}", "same-pattern-more-than-once-on-a-line", [f], [("a.txt", [fp.raw for fp in s])], False)
         if len(s) == 1 and not s[0].anchor_l:
             f = projgen.build_file("a.txt", s, "glued", "ascii", "LF", True)
             yield (f"glued:{ids}", "occurrences-glued-to-a-letter-or-underscore", [f], [("a.txt", [fp.raw for fp in s])], False)
@@ -171,6 +174,8 @@ def run_chunk(chunk):
     for lid, arrangement, files, entries, explicit_cfg in itertools.islice(plain, 8 if tier == "quick" else 40):
         run_project(st, pat, label, old, new, fmt, lid, "look-alike-sections-before-the-config-section", files, entries, explicit_cfg, preamble=True)
     config_reached_indirectly(st, pat, label, old, new, fmt)
+    if fmt == "bumpver.toml":
+        size_projects(st, pat, label, old, new, fmt)
     # stale occurrences: the files show ANOTHER version than the config's current_version (a file that was not kept up to date,
     # or an update that starts from a tag on another branch); every matched place must still end up at the new version
     for k, stale in enumerate(stale_states(pat, old, new, tier)):
@@ -188,6 +193,42 @@ def run_chunk(chunk):
         st.sample({"pattern": pat.text, "states": label, "format": fmt, "layouts": n})
     os.chdir("/")
     return st
+
+
+def size_projects(st, pat, label, old, new, fmt):
+    """Occurrences on very long lines (20,000 characters, as in minified files) and far apart in a file of 6,000 lines, next to
+    ordinary ones: every one of them must show the new version."""
+    old_text, new_text = M.render(pat.tree, old), M.render(pat.tree, new)
+    occ = f"ver={old_text};"
+    long_line = "x" * 9000 + " " + occ + " " + "y" * 11000
+    layouts_ = {
+        "long-line": ["header", occ + " short", long_line, "middle", long_line + " " + occ, "tail"],
+        "many-lines": [(occ + f" at {i}") if i in (7, 2999, 3000, 5990) else f"line {i} of the changelog" for i in range(6000)],
+    }
+    for lid, lines in layouts_.items():
+        body = "\n".join(lines) + "\n"
+        tree = {fmt: pt.config_text(fmt, pat.text, old_text, [("big.txt", ["ver={version};"])]).encode("utf-8"), "big.txt": body.encode("utf-8")}
+        world.clear_dir(".")
+        world.write_tree(tree)
+        o = world.cli("update", "--no-fetch", "--ignore-vcs-tag", "--set-version", new_text)
+        st.evaluations += 1
+        st.transitions += 1
+        case = {"pattern": pat.text, "states": label, "old": old_text, "new": new_text, "format": fmt, "size_layout": lid}
+        after = world.read_tree(".").get("big.txt", b"").decode("utf-8", "replace")
+        st.observe((case, o.exit, o.crashed, h64(after)))
+        st.state(lid, pat.text, label, h64(after))
+        if o.exit != 0:
+            st.outcomes["update-refused:" + lid] += 1
+            continue
+        st.validated += 1
+        st.nontriv(case)
+        want = body.replace(occ, f"ver={o.new_version};")
+        if after != want:
+            stale = after.count(occ)
+            st.outcomes["violation"] += 1
+            st.violation(f"C03:occurrence:{lid}", case, {"stale_occurrences": stale, "of": body.count(occ), "length_after": len(after), "expected_length": len(want)})
+        else:
+            st.outcomes["updated:" + lid] += 1
 
 
 def config_reached_indirectly(st, pat, label, old, new, fmt):
@@ -372,6 +413,10 @@ def replay(case, st):
                         if case.get("respelled"):
                             arrangement = "set-version-respelled"
                         stale = None
+                        if case.get("size_layout"):
+                            size_projects(st, pat, label, old, new, case["format"])
+                            os.chdir("/")
+                            return
                         if case.get("config_entry_key"):
                             config_reached_indirectly(st, pat, label, old, new, case["format"])
                             os.chdir("/")
